@@ -204,12 +204,13 @@ def main(chk):
         elif r["verdict"] == "disagree":
             model_only.append(r)
     chk.cov["input_distribution"] = hist
-    chk.cov["rule"] = ("8 iterator-body families (counter, two-parameter recurrence, local assignment before the yield, closure over an outer "
-                       "variable, no recur, unguarded infinite, two yields, keyword parameter) x histories of 4-10 operations (30 thorough) over 2-5 "
+    chk.cov["rule"] = ("%d iterator-body families (counter, two-parameter recurrence, local assignment before the yield, closure over an outer "
+                       "variable, no recur, unguarded infinite, two yields, keyword parameter, a body that rebinds a variable it reads with and "
+                       "without recur, a first yield that can be nil, a trailing statement after the yield) x histories of 4-10 operations (30 thorough) over 2-5 "
                        "iterators derived from one literal: new with arguments, next (also twice), A, list chain, reduce chain, _iter copies. "
                        "Oracle: one explicit state machine per iterator (next returns the first yield and applies recur; StopIterErr exactly when "
                        "the guard is false, repeatedly; A/chains list what next would return without advancing anything). Built-in iterators "
-                       "(arr/int/...) share their Go closure across _iter copies and are outside the property.")
+                       "(arr/int/...) share their Go closure across _iter copies and are outside the property." % len(FAMILIES))
     for i in (0, len(progs) // 2, len(progs) - 1):
         chk.sample({"program": progs[i], "expected_out": cases[i][2], "impl_out": res[i]["impl"].get("out"), "model_verdict": res[i]["verdict"]})
     return pancore.conclude(chk, ok, broken, "Props/C14.v", res, viol, model_only, "C14",
